@@ -45,6 +45,20 @@ def short(node, n=110):
     return t if len(t) <= n else t[:n - 3] + '...'
 
 
+def negate(t):
+    """Syntactic negation in the normal form used for guards: double negation, De Morgan, flipped comparison operators
+    (the package compares integers, lengths and identities only)."""
+    if isinstance(t, ast.UnaryOp) and isinstance(t.op, ast.Not):
+        return t.operand
+    if isinstance(t, ast.BoolOp):
+        return ast.copy_location(ast.BoolOp(op=ast.Or() if isinstance(t.op, ast.And) else ast.And(), values=[negate(v) for v in t.values]), t)
+    if isinstance(t, ast.Compare) and len(t.ops) == 1:
+        flip = {ast.Eq: ast.NotEq, ast.NotEq: ast.Eq, ast.Lt: ast.GtE, ast.GtE: ast.Lt, ast.Gt: ast.LtE, ast.LtE: ast.Gt,
+                ast.Is: ast.IsNot, ast.IsNot: ast.Is, ast.In: ast.NotIn, ast.NotIn: ast.In}
+        return ast.copy_location(ast.Compare(left=t.left, ops=[flip[type(t.ops[0])]()], comparators=t.comparators), t)
+    return ast.copy_location(ast.UnaryOp(op=ast.Not(), operand=t), t)
+
+
 class _Normalise(ast.NodeTransformer):
     """Behaviour-preserving normal form so that equivalent spellings do not reach the rules:
     `x == None` -> `x is None`, `x != None` -> `x is not None`; `pass` dropped where it is not the only statement; `else: pass` dropped."""
@@ -58,6 +72,13 @@ class _Normalise(ast.NodeTransformer):
                 n.ops[i] = ast.Is() if isinstance(op, ast.Eq) else ast.IsNot()
         return n
 
+    def visit_AnnAssign(self, n):
+        # `x: T = v` is `x = v`; a bare declaration `x: T` is nothing
+        self.generic_visit(n)
+        if n.value is None:
+            return ast.copy_location(ast.Pass(), n)
+        return ast.copy_location(ast.Assign(targets=[n.target], value=n.value, type_comment=None), n)
+
     def generic_visit(self, node):
         super().generic_visit(node)
         for fld in ('body', 'orelse', 'finalbody'):
@@ -68,7 +89,18 @@ class _Normalise(ast.NodeTransformer):
                     setattr(node, fld, kept)
                 elif fld == 'orelse':
                     setattr(node, fld, [])
+        if isinstance(node, (ast.For, ast.While)):
+            node.body = self._guard_continue(node.body)
         return node
+
+    @staticmethod
+    def _guard_continue(body):
+        """`if C: continue` directly in a loop body, followed by more statements  ==  `if not C: <the rest>`"""
+        for i, st in enumerate(body):
+            if isinstance(st, ast.If) and not st.orelse and len(st.body) == 1 and isinstance(st.body[0], ast.Continue) and body[i + 1:]:
+                rest = _Normalise._guard_continue(body[i + 1:])
+                return body[:i] + [ast.copy_location(ast.If(test=negate(st.test), body=rest, orelse=[]), st)]
+        return body
 
 
 class Mod:
